@@ -1324,6 +1324,15 @@ def enum_iteration(ctx, probes):
                 times = "{a0: %s, %s}.a%d" % (base, ", ".join("a%d: a%d * 2" % (i, i - 1) for i in range(1, n + 1)), n)
                 for t in (plus, minus, times, "string(%s)" % plus, "(%s).days" % plus, "abs(%s)" % minus):
                     yield case(t, [], 1, ["doubling:" + lab, "doublings:%d" % n], cls="doubling")
+        # results that quote earlier results: every iteration fails and its null carries a message that names the operands; with `partial`
+        # (or a growing context) among the operands each message contains all earlier ones
+        for n in (8, 24, 40, 400):
+            for body in ("partial * 2", "partial + 1", "-partial", "partial < 1", "partial.x + 1", "[partial, partial] - 1", "sum(partial) + partial",
+                         "if partial then 1 else partial * 2", "{a: partial * 2, b: a + 1}.b", "partial[1] * partial", "string length(partial)",
+                         "substring(partial, 1)", "partial between 1 and 2", "not(partial)", "date(partial)"):
+                yield case("count(for i in 1..%d return %s)" % (n, body), [], n, ["failing-body-quotes-partial", "iterations:%d" % n], cls="partial-in-message")
+            yield case("{a0: [], %s}.a%d" % (", ".join("a%d: [a%d, a%d * 2]" % (i, i - 1, i - 1) for i in range(1, min(n, 40) + 1)), min(n, 40)), [], 1,
+                       ["failing-entry-quotes-earlier-entries", "entries:%d" % min(n, 40)], cls="partial-in-message")
         return
     yield case("for i in %d..%d return i" % (M - 1, M), [], 2, ["range:ends-at-isize-max"])
     if ctx.thorough():
